@@ -74,17 +74,125 @@ theorem example_compatible : Compatible [exA, exB] := by
     simp at ha hb
     rcases ha with rfl | rfl <;> rcases hb with rfl | rfl <;> simp [exA, exB, h]
 
-/-! the three psbts of one transaction (lock time T) of the finding -/
+/-! the three psbts of one transaction (lock time T) of finding combine.locktime-partition.grouping:
+well-kinded (every other field holds its dataclass default) and `Compatible` -/
 def lockT : Int := 1700000000
 
-def lockPsbt (req : List (Option Int × Option Int)) : Psbt :=
-  ⟨2, 3, 0, fun l =>
-    if l.sec = .inp ∧ l.name = "required_height_lock_time" then .scalar ((req[l.idx]?.bind (·.1)).map .int)
-    else if l.sec = .inp ∧ l.name = "required_time_lock_time" then .scalar ((req[l.idx]?.bind (·.2)).map .int)
-    else .scalar none⟩
+def heightLoc (l : Loc) : Bool := l.sec == .inp && l.name == "required_height_lock_time"
+def timeLoc (l : Loc) : Bool := l.sec == .inp && l.name == "required_time_lock_time"
+
+def lockSlot (req : List (Option Int × Option Int)) (l : Loc) : Slot :=
+  if heightLoc l then .scalar ((req[l.idx]?.bind (·.1)).map .int)
+  else if timeLoc l then .scalar ((req[l.idx]?.bind (·.2)).map .int)
+  else dflt l
+
+def lockPsbt (req : List (Option Int × Option Int)) : Psbt := ⟨2, 3, 0, lockSlot req⟩
 
 def lkA := lockPsbt [(some 50, some lockT), (none, some lockT), (none, none)]
 def lkB := lockPsbt [(none, some lockT), (some 50, some lockT), (none, none)]
 def lkC := lockPsbt [(none, some lockT), (none, some lockT), (none, some lockT)]
+
+def fieldOK (a b : Option Int) : Bool := a.isNone || b.isNone || a == b
+
+/-- two requirement lists never state two different values for one input -/
+def reqOK (r1 r2 : List (Option Int × Option Int)) : Bool :=
+  (List.range (max r1.length r2.length)).all fun i =>
+    fieldOK (r1[i]?.bind (·.1)) (r2[i]?.bind (·.1)) && fieldOK (r1[i]?.bind (·.2)) (r2[i]?.bind (·.2))
+
+theorem compat_scalar {t : Bool} {a b : Option Val} (h : a = none ∨ b = none ∨ a = b) :
+    Compat t (.scalar a) (.scalar b) := by
+  rcases h with h | h | h
+  · subst h; intro k v w h1; simp [den, norm] at h1
+  · subst h; intro k v w _ h2; simp [den, norm] at h2
+  · subst h; exact compat_self _ _
+
+theorem fieldOK_map {a b : Option Int} (h : fieldOK a b = true) :
+    a.map Val.int = none ∨ b.map Val.int = none ∨ a.map Val.int = b.map Val.int := by
+  cases a <;> cases b <;> simp_all [fieldOK]
+
+theorem reqOK_at {r1 r2 : List (Option Int × Option Int)} (h : reqOK r1 r2 = true) (i : Nat) :
+    fieldOK (r1[i]?.bind (·.1)) (r2[i]?.bind (·.1)) = true ∧ fieldOK (r1[i]?.bind (·.2)) (r2[i]?.bind (·.2)) = true := by
+  by_cases hi : i < max r1.length r2.length
+  · have := List.all_eq_true.mp h i (List.mem_range.mpr hi)
+    simpa using this
+  · have h1 : r1[i]? = none := List.getElem?_eq_none (by omega)
+    have h2 : r2[i]? = none := List.getElem?_eq_none (by omega)
+    simp [h1, h2, fieldOK]
+
+theorem lockSlot_compat {r1 r2 : List (Option Int × Option Int)} (h : reqOK r1 r2 = true) (t : Bool) (l : Loc) :
+    Compat t (lockSlot r1 l) (lockSlot r2 l) := by
+  unfold lockSlot
+  split
+  · exact compat_scalar (fieldOK_map (reqOK_at h l.idx).1)
+  · split
+    · exact compat_scalar (fieldOK_map (reqOK_at h l.idx).2)
+    · exact compat_self _ _
+
+theorem specAt_height (l : Loc) (h : heightLoc l = true) :
+    specAt l = some ⟨"required_height_lock_time", .scalar, .notNone, true⟩ := by
+  obtain ⟨s, i, n⟩ := l
+  simp [heightLoc] at h
+  obtain ⟨hs, hn⟩ := h
+  subst hs; subst hn
+  show lookupField (fieldsOf .inp) "required_height_lock_time" = _
+  decide
+
+theorem specAt_time (l : Loc) (h : timeLoc l = true) :
+    specAt l = some ⟨"required_time_lock_time", .scalar, .notNone, true⟩ := by
+  obtain ⟨s, i, n⟩ := l
+  simp [timeLoc] at h
+  obtain ⟨hs, hn⟩ := h
+  subst hs; subst hn
+  show lookupField (fieldsOf .inp) "required_time_lock_time" = _
+  decide
+
+theorem ruleAt_lock (l : Loc) (h : heightLoc l = true ∨ timeLoc l = true) : ruleAt l = some .notNone := by
+  obtain ⟨s, i, n⟩ := l
+  rcases h with h | h
+  · simp [heightLoc] at h; obtain ⟨hs, hn⟩ := h; subst hs; subst hn
+    show lookupRule (callsOf .inp) "required_height_lock_time" = _; decide
+  · simp [timeLoc] at h; obtain ⟨hs, hn⟩ := h; subst hs; subst hn
+    show lookupRule (callsOf .inp) "required_time_lock_time" = _; decide
+
+theorem operand_lock (req : List (Option Int × Option Int)) : Operand (lockPsbt req) := by
+  constructor
+  · intro l
+    show Canon (lockSlot req l)
+    unfold lockSlot
+    split
+    · trivial
+    · split
+      · trivial
+      · exact canon_dflt l
+  · intro l f hf
+    show kindOf (lockSlot req l) = f.kind
+    unfold lockSlot
+    split
+    · rename_i h; rw [specAt_height l h] at hf; cases hf; rfl
+    · split
+      · rename_i h; rw [specAt_time l h] at hf; cases hf; rfl
+      · exact kinded_dflt l f hf
+
+theorem lock_compatible : Compatible [lkA, lkB, lkC] := by
+  refine ⟨?_, ?_, ?_⟩
+  · intro p hp
+    simp at hp
+    rcases hp with rfl | rfl | rfl <;> exact operand_lock _
+  · intro l a ha b hb
+    simp at ha hb
+    rcases ha with rfl | rfl | rfl <;> rcases hb with rfl | rfl | rfl <;>
+      exact lockSlot_compat (by decide) _ l
+  · intro l _ hn a ha b hb
+    have h1 : heightLoc l = false := by
+      cases h : heightLoc l
+      · rfl
+      · rw [ruleAt_lock l (Or.inl h)] at hn; cases hn
+    have h2 : timeLoc l = false := by
+      cases h : timeLoc l
+      · rfl
+      · rw [ruleAt_lock l (Or.inr h)] at hn; cases hn
+    simp at ha hb
+    rcases ha with rfl | rfl | rfl <;> rcases hb with rfl | rfl | rfl <;>
+      simp [lkA, lkB, lkC, lockPsbt, lockSlot, h1, h2]
 
 end Btc.C11
